@@ -147,7 +147,9 @@ func cmdMaven(args []string) error {
 	for _, c := range cases {
 		o := mObs{Universe: c.Universe, Root: c.Root, SoftOnly: c.SoftOnly, Graph: mGraph{Nodes: []nNode{}, Edges: []mEdge{}}, Model: c.Model}
 		lc := loadMavenUniverse(c, tb.Versions, tb.Reqs)
-		g, err := maven.NewResolver(lc).Resolve(ctx, resolve.VersionKey{PackageKey: resolve.PackageKey{System: resolve.Maven, Name: c.Root.Name}, VersionType: resolve.Concrete, Version: tb.Versions[c.Root.V-1]})
+		g, err := guarded(func() (*resolve.Graph, error) {
+			return maven.NewResolver(lc).Resolve(ctx, resolve.VersionKey{PackageKey: resolve.PackageKey{System: resolve.Maven, Name: c.Root.Name}, VersionType: resolve.Concrete, Version: tb.Versions[c.Root.V-1]})
+		})
 		if err != nil || g == nil {
 			if err != nil {
 				o.Err = err.Error()
